@@ -9,6 +9,7 @@ import (
 	"net"
 	"net/http"
 	"net/http/httptest"
+	"os"
 	"strings"
 	"sync"
 	"testing"
@@ -142,7 +143,21 @@ func (w *world) upstream() http.Handler {
 	})
 }
 
+var portSeq int
+
+// freePort hands out ports from a range private to this process (below the kernel's ephemeral range, spread by pid),
+// so that concurrently running test processes do not race for a port between "found free" and "bound by the server".
 func freePort() int {
+	base := 10000 + (os.Getpid()*37%180)*100
+	for i := 0; i < 100; i++ {
+		portSeq++
+		p := base + portSeq%100
+		l, err := net.Listen("tcp", fmt.Sprintf("127.0.0.1:%d", p))
+		if err == nil {
+			l.Close()
+			return p
+		}
+	}
 	l, err := net.Listen("tcp", "127.0.0.1:0")
 	if err != nil {
 		panic(err)
@@ -332,7 +347,21 @@ func TestExtensionOrdering(t *testing.T) {
 		}
 		history = append(history, fmt.Sprintf("startup: %d datapoints, then subscribe answered", n0))
 		close(w.subHold)
-		waitNext(t, w, 1, history)
+		select {
+		case n := <-w.nextSeen:
+			if n != 1 {
+				vt.Fail(t, "C20:next-count", "first /event/next has number %d", n)
+			}
+		case err := <-runDone:
+			runDone <- err
+			if err != nil && strings.Contains(err.Error(), "address already in use") {
+				ev.C().Excluded("port-collision-with-another-process", 1)
+				t.Skip("a harness port was taken by another process")
+			}
+			vt.Fail(t, "C20:next-never-requested", "the extension stopped before requesting /event/next: %v; log %v", err, describe(w.snapshot()))
+		case <-time.After(30 * time.Second):
+			vt.Fail(t, "C20:next-never-requested", "the extension did not request the first /event/next within 30s; history %v; log %v", history, describe(w.snapshot()))
+		}
 		checkOrder(t, w, history)
 
 		invocations := rapid.IntRange(1, 5).Draw(t, "invocations")
